@@ -580,7 +580,7 @@ func (s *Sim) genTx0() *TxSpec {
 			base.Tamper = "sig"
 			base.Note = "tamper-sig"
 		case 5:
-			base.Tamper = []string{"amount", "to", "gas", "time"}[r.Intn(4)]
+			base.Tamper = []string{"amount", "to", "gas", "time", "version-0", "version-2"}[r.Intn(6)]
 			base.Note = "tamper-" + base.Tamper
 		case 6:
 			base.SignChain = "other-chain"
